@@ -649,6 +649,7 @@ pub fn generate(tier: &str, rng: &mut Rng) -> Vec<String> {
         let mut ticks = 0;
         // rough guess whether the RX slot is occupied (steers the choice only)
         let mut held = false;
+        let mut next_alias = 900u64;
         for _ in 0..len {
             let c = rng.below(100);
             let h = if n_handles == 0 { 0 } else { rng.below(n_handles + 1) };
@@ -657,7 +658,8 @@ pub fn generate(tier: &str, rng: &mut Rng) -> Vec<String> {
                 ctr[key] += 1;
                 // mostly fresh counters, sometimes a repeat
                 let cval = if rng.chance(1, 8) && ctr[key] > 1 { ctr[key] - 1 } else { ctr[key] };
-                let exid = if rng.chance(1, 6) { 900 + rng.below(2) } else { 100 + rng.below(3) };
+                // initiator exchanges are addressed by their alias (unique per case, like the real ids)
+                let exid = if rng.chance(1, 6) { 900 + rng.below((next_alias - 900).max(1)) } else { 100 + rng.below(3) };
                 let init = if exid >= 900 { rng.chance(1, 5) } else { rng.chance(4, 5) };
                 let op = *rng.pick(&['o', 'o', 'o', 'o', 'n', 'a', 's', 'c']);
                 let ack = *rng.pick(&["-", "-", "@", "!"]);
@@ -700,7 +702,8 @@ pub fn generate(tier: &str, rng: &mut Rng) -> Vec<String> {
             } else if c < 77 {
                 ops.push(format!("s{}:{}", h, rng.chance(2, 3) as u8));
             } else if c < 81 {
-                ops.push(format!("i{}:{}", rng.below(n_sess), 900 + rng.below(2)));
+                ops.push(format!("i{}:{}", rng.below(n_sess), next_alias));
+                next_alias += 1;
                 n_handles += 1;
             } else if c < 86 {
                 ops.push("W".into());
@@ -802,8 +805,8 @@ pub fn generate(tier: &str, rng: &mut Rng) -> Vec<String> {
         // let the backlog drain (every unaccepted exchange may hold the RX buffer for the accept deadline),
         // then probe from the ghost and from the real controller; probes retry once like a real peer
         script.push("w1500".into());
-        script.push("q2:6000".into());
-        script.push("p6000".into());
+        script.push("Q2:6000".into());
+        script.push("P6000".into());
         cases.push(format!("E {} h={} ga=1 s={}", nid(), hs.join("."), script.join(";")));
     }
     cases
